@@ -87,7 +87,7 @@ pub struct Inst {
     pub fixed: Mutex<Option<XEnc>>,
     pub cc: Covercrypt,
     pub msk: Mutex<MasterSecretKey>,
-    pub mpk: Mutex<MasterPublicKey>,
+    pub mpk: std::sync::RwLock<MasterPublicKey>,
     pub usk: UserSecretKey,
 }
 
@@ -105,7 +105,7 @@ pub fn instance(sets: &Sets) -> Result<Inst, Fail> {
     record_mpk(sets, &mpk, true)?;
     let usk = cc.generate_user_secret_key(&mut msk, &AccessPolicy::parse("SEC::TOP").unwrap()).map_err(e)?;
     record_usk(sets, &usk)?;
-    Ok(Inst { fixed: Mutex::new(None), cc, msk: Mutex::new(msk), mpk: Mutex::new(mpk), usk })
+    Ok(Inst { fixed: Mutex::new(None), cc, msk: Mutex::new(msk), mpk: std::sync::RwLock::new(mpk), usk })
 }
 
 fn record_usk(sets: &Sets, usk: &UserSecretKey) -> CheckResult {
@@ -145,7 +145,7 @@ pub fn one_call(inst: &Inst, sets: &Sets, kind: u8, ptx_len: u8, col: &Collector
     match kind {
         0 | 1 => {
             let ap = AccessPolicy::parse(POL[kind as usize]).unwrap();
-            let mpk = inst.mpk.lock().unwrap();
+            let mpk = inst.mpk.read().unwrap();
             let (s, e) = inst.cc.encaps(&mpk, &ap).map_err(|e| Fail::new("encaps-failed", short_err(&e)))?;
             drop(mpk);
             record_enc(sets, &s[..], &e)?;
@@ -154,7 +154,7 @@ pub fn one_call(inst: &Inst, sets: &Sets, kind: u8, ptx_len: u8, col: &Collector
         2 => {
             let ap = AccessPolicy::parse(POL[0]).unwrap();
             let ptx = vec![0x41u8; ptx_len as usize];
-            let mpk = inst.mpk.lock().unwrap();
+            let mpk = inst.mpk.read().unwrap();
             let (e, body) = pke_encrypt(&inst.cc, &mpk, &ap, &ptx).map_err(|e| Fail::new("encrypt-failed", short_err(&e)))?;
             drop(mpk);
             if body.len() < 12 {
@@ -173,15 +173,21 @@ pub fn one_call(inst: &Inst, sets: &Sets, kind: u8, ptx_len: u8, col: &Collector
         3 => {
             let ap = AccessPolicy::parse("SEC::TOP").unwrap();
             let md = vec![0x42u8; 1 + ptx_len as usize];
-            // hold the master key for the whole call so that no rekey interleaves between the key
-            // generation and the header generation (lock order msk -> mpk, as in rekey)
-            let mut msk = inst.msk.lock().unwrap();
-            let usk = inst.cc.generate_user_secret_key(&mut msk, &ap).map_err(|e| Fail::new("keygen-failed", short_err(&e)))?;
-            record_usk(sets, &usk)?;
-            let mpk = inst.mpk.lock().unwrap();
-            let (secret, h) = EncryptedHeader::generate(&inst.cc, &mpk, &ap, Some(&md), None).map_err(|e| Fail::new("header-generate-failed", short_err(&e)))?;
+            // header generation only reads the public key, so that several generations overlap
+            let aad_buf = [0x61u8; 9];
+            let aad: Option<&[u8]> = if ptx_len % 2 == 0 { Some(&aad_buf[..1 + (ptx_len as usize % 8)]) } else { None };
+            col.class(if aad.is_some() { "header:with-aad" } else { "header:without-aad" });
+            // lock order everywhere: public key (read / write) first, then master key; holding the
+            // read lock until the control key exists keeps a rekey from slipping in between
+            let mpk = inst.mpk.read().unwrap();
+            let (secret, h) = EncryptedHeader::generate(&inst.cc, &mpk, &ap, Some(&md), aad).map_err(|e| Fail::new("header-generate-failed", short_err(&e)))?;
+            let usk = {
+                let mut msk = inst.msk.lock().unwrap();
+                let k = inst.cc.generate_user_secret_key(&mut msk, &ap).map_err(|e| Fail::new("keygen-failed", short_err(&e)))?;
+                record_usk(sets, &k)?;
+                k
+            };
             drop(mpk);
-            drop(msk);
             let em = h.encrypted_metadata.clone().unwrap_or_default();
             if em.len() < 12 {
                 return Err(Fail::new("header-metadata-too-short", "no nonce".to_string()));
@@ -196,11 +202,13 @@ pub fn one_call(inst: &Inst, sets: &Sets, kind: u8, ptx_len: u8, col: &Collector
             kb.copy_from_slice(&secret[..32]);
             let key = SymmetricKey::<32>::try_from_bytes(kb).map_err(|e| Fail::new("internal", e.to_string()))?;
             let nonce = Nonce::try_from_slice(&em[..12]).map_err(|e| Fail::new("internal", e.to_string()))?;
-            if Aes256Gcm::new(&key).decrypt(&nonce, &em[12..], None).is_ok() {
+            if Aes256Gcm::new(&key).decrypt(&nonce, &em[12..], aad).is_ok() || Aes256Gcm::new(&key).decrypt(&nonce, &em[12..], None).is_ok() {
                 return Err(Fail::new("metadata-key-equals-returned-secret", "the encrypted metadata decrypts under the secret returned to the caller used directly as AES-256-GCM key".to_string()));
             }
-            match h.decrypt(&inst.cc, &usk, None) {
-                Ok(Some(c)) if c.metadata.as_deref() == Some(&md[..]) && c.secret == secret => {}
+            match h.decrypt(&inst.cc, &usk, aad) {
+                Ok(Some(c)) if c.metadata.as_deref() == Some(&md[..]) && c.secret == secret => col.class("header:control-decrypt-ok"),
+                // a rekey of another thread slipped between the header and the control key
+                Ok(None) => col.class("header:control-skipped(rekey interleaved)"),
                 _ => return Err(Fail::new("header-authorized-path-failed", "authorized decryption of the header failed".to_string())),
             }
             col.class("calls:header-generate");
@@ -215,8 +223,8 @@ pub fn one_call(inst: &Inst, sets: &Sets, kind: u8, ptx_len: u8, col: &Collector
         }
         6 => {
             // re-encapsulate the same encapsulation repeatedly: each result must be fresh
+            let mpk = inst.mpk.read().unwrap();
             let msk = inst.msk.lock().unwrap();
-            let mpk = inst.mpk.lock().unwrap();
             let mut fixed = inst.fixed.lock().unwrap();
             let orig = match fixed.as_ref() {
                 Some(e) => e.clone(),
@@ -239,12 +247,13 @@ pub fn one_call(inst: &Inst, sets: &Sets, kind: u8, ptx_len: u8, col: &Collector
         }
         _ => {
             let ap = AccessPolicy::parse("*").unwrap();
+            let mut mpk_slot = inst.mpk.write().unwrap();
             let mut msk = inst.msk.lock().unwrap();
             let mpk = inst.cc.rekey(&mut msk, &ap).map_err(|e| Fail::new("rekey-failed", short_err(&e)))?;
             // keep chains short
             let _ = inst.cc.prune_master_secret_key(&mut msk, &ap);
             record_mpk(sets, &mpk, false)?;
-            *inst.mpk.lock().unwrap() = mpk;
+            *mpk_slot = mpk;
             drop(msk);
             col.class("calls:rekey");
         }
@@ -313,6 +322,34 @@ pub fn run(ctx: &Ctx, col: &Collector) -> Meta {
     let mut cfg = ctx.run_cfg(ctx.n(600, 12_000), 1);
     cfg.threads = 4.min(ctx.threads);
     run_cases(&cfg, "fresh", strategy, col, |c, col| check_case(&g, c, col));
+    // contention bursts: many threads issuing the *same* kind of call at once on the shared
+    // instance (the interleaving encaps/encaps/nonce/nonce needs overlapping calls of one kind)
+    if !col.stopped() {
+        for kind in [0u8, 1, 2, 3] {
+            let fail: Mutex<Option<Fail>> = Mutex::new(None);
+            let rounds = ctx.n(40, 400);
+            std::thread::scope(|s| {
+                for t in 0..8u8 {
+                    let g = &g;
+                    let fail = &fail;
+                    s.spawn(move || {
+                        for i in 0..rounds {
+                            if let Err(f) = crate::runner::guarded(|| one_call(&g.shared, &g.sets, kind, t.wrapping_add(i as u8), col)) {
+                                *fail.lock().unwrap() = Some(f);
+                                return;
+                            }
+                        }
+                    });
+                }
+            });
+            col.eval(8 * rounds);
+            col.class_n("burst-calls", 8 * rounds);
+            if let Some(f) = fail.into_inner().unwrap() {
+                report_fail(col, "fresh", f, json!({"calls": vec![kind; 40], "threads": 8, "shared_instance": true, "ptx_len": 3}));
+                break;
+            }
+        }
+    }
     // distinct values compared
     let total = g.sets.total();
     col.class_n("distinct:secrets", g.sets.secrets.lock().unwrap().len() as u64);
@@ -351,7 +388,7 @@ pub fn run(ctx: &Ctx, col: &Collector) -> Meta {
 fn meta() -> Meta {
     Meta {
         level: "exploration",
-        rule: "generated workloads of 20-60 calls (encaps classic / hybridized, PKE encrypt, header generate, key generation, rekey '*', recaps of one fixed encapsulation) with identical arguments, run on one shared instance or on fresh instances, from 1-8 threads; every returned secret, tag, trap, masked seed, ML-KEM ciphertext, AEAD nonce (PKE and header metadata), user-id marker vector and every public value published by a rekey is inserted in a run-wide set per kind and must be new; the header's encrypted metadata must not decrypt under the returned secret used as AES key while the authorized path succeeds. Non-trivial = each value compared; distinct_nontrivial counts the distinct tags, nonces, user ids and secrets".into(),
+        rule: "generated workloads of 20-60 calls (encaps classic / hybridized, PKE encrypt, header generate, key generation, rekey '*', recaps of one fixed encapsulation) with identical arguments, run on one shared instance or on fresh instances, from 1-8 threads, followed by contention bursts (8 threads issuing the same kind of call at once on the shared instance) and with headers generated with and without authentication data; every returned secret, tag, trap, masked seed, ML-KEM ciphertext, AEAD nonce (PKE and header metadata), user-id marker vector and every public value published by a rekey is inserted in a run-wide set per kind and must be new; the header's encrypted metadata must not decrypt under the returned secret used as AES key while the authorized path succeeds. Non-trivial = each value compared; distinct_nontrivial counts the distinct tags, nonces, user ids and secrets".into(),
         exhaustive: false,
         assumptions: vec!["detects reuse and low-entropy sources (constant, counter, per-call reseeding), not statistical bias".into()],
     }
